@@ -140,7 +140,7 @@ class Ctx:
     # ---- naming -----------------------------------------------------------------
     def fresh_name(self, base):
         self.counter += 1
-        return "%s!%d" % (base, self.counter)
+        return "%s%s!%d" % (base, self.opts.get("tag", ""), self.counter)
 
     # ---- allocation tracking ----------------------------------------------------
     def alloc(self, obj):
